@@ -361,8 +361,9 @@ def _first_walrus(e: ast.AST) -> Optional[tuple]:
 class Structurer:
     """S3-S6 on statement lists; `tail` tells whether falling off the list ends the function"""
 
-    def __init__(self, void: bool = False) -> None:
+    def __init__(self, void: bool = False, local_lists: Optional[set] = None) -> None:
         self.changed = False
+        self.local_lists = local_lists or set()
         self.void = void          # the function returns no value anywhere (only bare returns): a trailing bare return is a no-op
 
     def block(self, body: list[ast.stmt], tail: bool, loop_tail: bool = False) -> list[ast.stmt]:
@@ -379,6 +380,27 @@ class Structurer:
             st = body[i]
             rest = body[i + 1:]
             last = not rest
+            # `for a, b in ((x1, y1), (x2, y2)): S` over a literal of call-free elements, body without break/continue -> unrolled
+            if isinstance(st, ast.For) and not st.orelse and isinstance(st.iter, (ast.Tuple, ast.List)) and 1 <= len(st.iter.elts) <= 40 \
+                    and all(_callfree(e) and not isinstance(e, ast.Starred) for e in st.iter.elts) \
+                    and not any(isinstance(x, (ast.Break, ast.Continue, ast.Yield, ast.YieldFrom)) for b_ in st.body for x in ast.walk(b_)) \
+                    and (isinstance(st.target, ast.Name) or (isinstance(st.target, ast.Tuple) and all(isinstance(t, ast.Name) for t in st.target.elts)
+                                                           and all(isinstance(e, ast.Tuple) and len(e.elts) == len(st.target.elts) for e in st.iter.elts))):
+                tvars = [st.target.id] if isinstance(st.target, ast.Name) else [t.id for t in st.target.elts]
+                stored_in_body = {x.id for b_ in st.body for x in ast.walk(b_) if isinstance(x, ast.Name) and isinstance(x.ctx, (ast.Store, ast.Del))}
+                used_after = {x.id for r_ in rest for x in ast.walk(r_) if isinstance(x, ast.Name)}
+                if not (set(tvars) & stored_in_body) and not (set(tvars) & used_after):
+                    unrolled: list[ast.stmt] = []
+                    for e in st.iter.elts:
+                        vals = [e] if isinstance(st.target, ast.Name) else list(e.elts)
+                        for b_ in st.body:
+                            nb = copy.deepcopy(b_)
+                            for tv, vv in zip(tvars, vals):
+                                nb = _SubstName(tv, vv).visit(nb)
+                            unrolled.append(nb)
+                    body = body[:i] + unrolled + body[i + 1:]
+                    self.changed = True
+                    continue
             # recurse first
             if isinstance(st, ast.If):
                 st.body = self.block(st.body, tail and last, loop_tail and last)
@@ -475,6 +497,15 @@ class Structurer:
                     out.append(st)
                     self.changed = True
                     return out
+                # `if a: T` + `if b: T` with the same terminating body T  ->  `if a or b: T`
+                if not st.orelse and terminates(st.body) and rest and isinstance(rest[0], ast.If) and not rest[0].orelse \
+                        and ast.dump(ast.Module(body=st.body, type_ignores=[])) == ast.dump(ast.Module(body=rest[0].body, type_ignores=[])) \
+                        and not isinstance(rest[0].test, ast.NamedExpr) and _first_walrus(rest[0].test) is None:
+                    st.test = _flatten_bool(ast.copy_location(ast.BoolOp(op=ast.Or(), values=[st.test, rest[0].test]), st))
+                    body = body[:i + 1] + rest[1:]
+                    rest = body[i + 1:]
+                    self.changed = True
+                    continue
                 # guard polarity: `if c: A(terminates)` + B(terminates)  ==  `if not c: B` + A
                 if not st.orelse and terminates(st.body) and rest and terminates(rest) and _prefer_negated(st.test):
                     st.test = negate(st.test)
@@ -540,10 +571,27 @@ class Structurer:
                 out.append(st)
                 i += 1
                 continue
+            # `x += e` on a local that was bound to a list display in this function -> x.extend(e)
+            if isinstance(st, ast.AugAssign) and isinstance(st.op, ast.Add) and isinstance(st.target, ast.Name) and st.target.id in self.local_lists:
+                st = ast.copy_location(ast.Expr(value=ast.Call(func=ast.Attribute(value=ast.Name(id=st.target.id, ctx=ast.Load()), attr='extend', ctx=ast.Load()),
+                                                               args=[st.value], keywords=[])), st)
+                body[i] = st
+                self.changed = True
+            # `a, b = (x, y)` with call-free right-hand sides that do not read the targets -> a = x; b = y
+            if isinstance(st, ast.Assign) and len(st.targets) == 1 and isinstance(st.targets[0], ast.Tuple) and isinstance(st.value, ast.Tuple) \
+                    and len(st.targets[0].elts) == len(st.value.elts) and len(st.value.elts) >= 2 and all(_callfree(v) for v in st.value.elts) \
+                    and not any(isinstance(t, ast.Starred) for t in st.targets[0].elts):
+                tnames = {_u(t) for t in st.targets[0].elts}
+                reads = {_u(x) for v in st.value.elts for x in ast.walk(v) if isinstance(x, (ast.Name, ast.Attribute))}
+                if not (tnames & reads) and all(isinstance(t, (ast.Name, ast.Attribute)) for t in st.targets[0].elts):
+                    news = [ast.copy_location(ast.Assign(targets=[t], value=v), st) for t, v in zip(st.targets[0].elts, st.value.elts)]
+                    body = body[:i] + news + body[i + 1:]
+                    self.changed = True
+                    continue
             # `x.extend([e1, *e2, ..])` on a local list x that the elements do not mention -> x.append(e1); x.extend(e2); ..
             if isinstance(st, ast.Expr) and isinstance(st.value, ast.Call) and isinstance(st.value.func, ast.Attribute) \
                     and st.value.func.attr == 'extend' and isinstance(st.value.func.value, ast.Name) and len(st.value.args) == 1 \
-                    and not st.value.keywords and isinstance(st.value.args[0], ast.List) and len(st.value.args[0].elts) >= 2 \
+                    and not st.value.keywords and isinstance(st.value.args[0], ast.List) and len(st.value.args[0].elts) >= 1 \
                     and not any(isinstance(y, ast.Name) and y.id == st.value.func.value.id for y in ast.walk(st.value.args[0])):
                 xn = st.value.func.value
                 new_stmts: list[ast.stmt] = []
@@ -694,7 +742,34 @@ class _Exprs(ast.NodeTransformer):
 
     def visit_BoolOp(self, n: ast.BoolOp) -> ast.AST:
         self.generic_visit(n)
+        if isinstance(n.op, ast.Or):
+            # in a non-last position of an `or` chain only the truth of the operand matters when it is falsy:
+            # `(X if C else None) or Y`  ==  `(C and X) or Y`
+            for k, v in enumerate(n.values[:-1]):
+                if isinstance(v, ast.IfExp) and isinstance(v.orelse, ast.Constant) and v.orelse.value is None:
+                    n.values[k] = ast.copy_location(ast.BoolOp(op=ast.And(), values=[v.test, v.body]), v)
         return _flatten_bool(n)
+
+    def visit_Compare(self, n: ast.Compare) -> ast.AST:
+        self.generic_visit(n)
+        if len(n.ops) >= 2 and all(_callfree(c) for c in n.comparators[:-1]):
+            # a <= b <= c  ->  a <= b and b <= c   (b is call-free: evaluating it twice is the same)
+            parts_, left = [], n.left
+            for op, c in zip(n.ops, n.comparators):
+                parts_.append(ast.copy_location(ast.Compare(left=copy.deepcopy(left), ops=[op], comparators=[c]), n))
+                left = c
+            return self.visit(ast.copy_location(ast.BoolOp(op=ast.And(), values=parts_), n))
+        # `x in ('a', 'b')` with a call-free x and literal alternatives -> `x == 'a' or x == 'b'`
+        if len(n.ops) == 1 and isinstance(n.ops[0], (ast.In, ast.NotIn)) and isinstance(n.comparators[0], (ast.Tuple, ast.List, ast.Set)) \
+                and n.comparators[0].elts and all(isinstance(e, ast.Constant) and isinstance(e.value, (str, int)) for e in n.comparators[0].elts) \
+                and _callfree(n.left):
+            eq = isinstance(n.ops[0], ast.In)
+            parts = [ast.copy_location(ast.Compare(left=copy.deepcopy(n.left), ops=[ast.Eq() if eq else ast.NotEq()], comparators=[e]), n)
+                     for e in n.comparators[0].elts]
+            if len(parts) == 1:
+                return parts[0]
+            return ast.copy_location(ast.BoolOp(op=ast.Or() if eq else ast.And(), values=parts), n)
+        return n
 
     def visit_Call(self, n: ast.Call) -> ast.AST:
         self.generic_visit(n)
@@ -983,12 +1058,22 @@ def inline_pure_locals(fn: ast.FunctionDef) -> bool:
         ref_only = _is_ref_chain(st.value) or isinstance(st.value, (ast.Name, ast.Constant))
         w = _Writes()
         last_use_stmt = max(i for i, s in enumerate(after) if any(x in uses for x in ast.walk(s)))
-        for s in after[:last_use_stmt + 1]:
+        for s in after[:last_use_stmt]:
             w.visit(s)
+        lu = after[last_use_stmt]
+        if isinstance(lu, ast.If) and not any(x in uses for part in (lu.body, lu.orelse) for s_ in part for x in ast.walk(s_)):
+            w.visit(lu.test)            # the uses sit in the test: what the branches do comes after them
+        else:
+            w.visit(lu)
         read_names = {x.id for x in ast.walk(st.value) if isinstance(x, ast.Name)}
         if read_names & w.names:
             continue
-        plain_value = all(isinstance(x, (ast.Name, ast.Constant, ast.Load, ast.UnaryOp, ast.USub, ast.BinOp, ast.Add, ast.Sub, ast.Mult,
+        local_names = set(stores) | params
+        root_ = st.value
+        while isinstance(root_, ast.Attribute):
+            root_ = root_.value
+        global_chain = isinstance(st.value, ast.Attribute) and isinstance(root_, ast.Name) and root_.id not in local_names and root_.id not in ('self', 'cls')
+        plain_value = global_chain or all(isinstance(x, (ast.Name, ast.Constant, ast.Load, ast.UnaryOp, ast.USub, ast.BinOp, ast.Add, ast.Sub, ast.Mult,
                                          ast.Tuple, ast.Compare, ast.Is, ast.IsNot, ast.Eq, ast.NotEq, ast.Lt, ast.LtE, ast.Gt, ast.GtE,
                                          ast.BoolOp, ast.And, ast.Or, ast.Not))
                           for x in ast.walk(st.value)) or (
@@ -1180,7 +1265,12 @@ def _structural_fixpoint(fn: ast.FunctionDef, rounds: int) -> ast.FunctionDef:
         mod = canonicalise(ast.Module(body=[fn], type_ignores=[]))
         fn = mod.body[0]
         fn = _NNF().visit(fn)
-        s = Structurer(void=not _has_return_value(fn.body))
+        lists = {a.targets[0].id for a in ast.walk(fn) if isinstance(a, ast.Assign) and len(a.targets) == 1 and isinstance(a.targets[0], ast.Name)
+                 and isinstance(a.value, (ast.List, ast.ListComp))}
+        nonlists = {a.targets[0].id for a in ast.walk(fn) if isinstance(a, ast.Assign) and len(a.targets) == 1 and isinstance(a.targets[0], ast.Name)
+                    and not isinstance(a.value, (ast.List, ast.ListComp))}
+        params_ = {a.arg for a in [*fn.args.posonlyargs, *fn.args.args, *fn.args.kwonlyargs]}
+        s = Structurer(void=not _has_return_value(fn.body), local_lists=lists - nonlists - params_)
         fn.body = s.block(fn.body, True) or [ast.Pass()]
         fn = _Consumers().visit(fn)
         fn = _Exprs().visit(fn)
@@ -1258,6 +1348,7 @@ def helper_table(module: ast.Module, cls: Optional[ast.ClassDef]) -> dict[str, t
         if isinstance(s, ast.FunctionDef) and ok(s) and not s.decorator_list:
             out[s.name] = ('func', s)
     if cls is not None:
+        out['__class__'] = ('name', cls.name)          # type: ignore[assignment]
         for s in cls.body:
             if isinstance(s, ast.FunctionDef) and ok(s):
                 decos = [ast.unparse(d) for d in s.decorator_list]
@@ -1298,6 +1389,7 @@ def inline_helpers(fn: ast.FunctionDef, table: dict[str, tuple[str, ast.Function
     if not table or depth > 2:
         return fn
     selfname = fn.args.args[0].arg if fn.args.args else ''
+    clsname = table.get('__class__', ('', None))[1] or '<none>'      # type: ignore[assignment]
     counter = [0]
 
     def callee(c: ast.Call) -> Optional[tuple[str, ast.FunctionDef, list[ast.AST]]]:
@@ -1310,10 +1402,12 @@ def inline_helpers(fn: ast.FunctionDef, table: dict[str, tuple[str, ast.Function
             h = table[f.id][1]
             params = [a.arg for a in h.args.args]
             recv: list[ast.AST] = []
-        elif isinstance(f, ast.Attribute) and isinstance(f.value, ast.Name) and f.value.id in (selfname, 'cls', 'self') and f.attr in table \
+        elif isinstance(f, ast.Attribute) and isinstance(f.value, ast.Name) and f.value.id in (selfname, 'cls', 'self', clsname) and f.attr in table \
                 and table[f.attr][0] in ('method', 'staticmethod', 'classmethod') and f.attr != fn.name:
             kind, h = table[f.attr]
             params = [a.arg for a in h.args.args]
+            if f.value.id == clsname and kind != 'staticmethod':
+                return None
             recv = [] if kind == 'staticmethod' else [f.value]
         else:
             return None
@@ -1380,7 +1474,8 @@ def inline_helpers(fn: ast.FunctionDef, table: dict[str, tuple[str, ast.Function
             result: Optional[ast.AST] = None
             if isinstance(st, ast.Expr) and isinstance(st.value, ast.Call):
                 c = st.value
-            elif isinstance(st, ast.Assign) and len(st.targets) == 1 and isinstance(st.value, ast.Call) and isinstance(st.targets[0], ast.Name):
+            elif isinstance(st, ast.Assign) and len(st.targets) == 1 and isinstance(st.value, ast.Call) and (
+                    isinstance(st.targets[0], ast.Name) or (isinstance(st.targets[0], ast.Tuple) and all(isinstance(t, ast.Name) for t in st.targets[0].elts))):
                 c, result = st.value, st.targets[0]
             elif isinstance(st, ast.Return) and isinstance(st.value, ast.Call):
                 c, result = st.value, st
